@@ -2,6 +2,7 @@
 from typing import List, Tuple, Dict, Optional
 import json
 import clastic.render.simple as RS
+from harness.util import R, untraced
 from clastic.render.simple import BasicRender, JSONRender, JSONPRender, ClasticJSONEncoder
 
 ALPHA = '{}[]<h a1'
@@ -84,9 +85,15 @@ class _Stubbed(object):
 def _expected_labels(s):
     """three-valued label oracle from the statement: returns the set of acceptable labels."""
     if s and (s[0] == '{' or s[0] == '['):
-        if (s[-1] == '}' or s[-1] == ']') and any(s == v for v in VALID_JSON):
-            return (J,)
-        return (J, P, H)                      # JSON-looking but not valid JSON: statement is silent
+        closing = '}' if s[0] == '{' else ']'
+        if s[-1] == closing:
+            if any(s == v for v in VALID_JSON):
+                return (J,)
+            return (J, P, H)                  # bracketed like JSON but not valid JSON: statement is silent
+        # cannot be a serialized JSON object/array (no matching closing bracket): it is "other text" / HTML
+        if '<html' in s[:168]:
+            return (H,)
+        return (H, P) if '<html' in s else (P,)
     if '<html' in s[:168]:
         return (H,)
     if '<html' in s:
@@ -303,3 +310,51 @@ def tw_exotic(kind: int, nest: int, dev: bool) -> bool:
         except TypeError:
             return True
     return False
+
+
+# ---- the real HTML table renderer on tabular shapes (untraced after the selectors are realised: boltons.tableutils)
+def _doc_ep(kind):
+    def ep():
+        return None
+    ep.__doc__ = [None, '', 'One line only.', 'First line.\n\n    Indented <b>second</b> paragraph & more.\n    ', '  leading space single',
+                  'See https://example.com/x?a=1&b=2 for "details".'][kind]
+    return ep
+
+
+_TABULAR = [{'a': 1, 'b': 'x<y'}, [1, 2, 3], [{'a': 1, 'b': 2}, {'a': 3, 'b': 4}], [[1, 2], [3, 4]], {}, [], ('t', 'u'), {'k': '<script>'}]
+
+
+class _RouteStub(object):
+    def __init__(self, ep):
+        self.endpoint = ep
+
+
+def ob_table(ctx: int, doc: int, via_accept: bool, with_route: bool) -> bool:
+    """format=html / Accept html on tabular shapes: a 200 text/html table, whatever the endpoint's docstring."""
+    ctx, doc = R(ctx), R(doc)
+    via_accept, with_route = (True if via_accept else False), (True if with_route else False)
+    with untraced():
+        from werkzeug.wrappers import Response
+        c = _TABULAR[ctx]
+        req = _Req(fmt=None if via_accept else 'html', truthy=via_accept, choice=0)
+        r = BasicRender().render_response(c, req, _RouteStub(_doc_ep(doc)) if with_route else None)
+        if not isinstance(r, Response) or r.status_code != 200 or r.mimetype != 'text/html':
+            return False
+        body = r.get_data(True)
+        if '<table' not in body:
+            return False
+        if '<script>' in body or 'x<y' in body:
+            return False
+        return True
+
+
+def confirm_table(ctx, doc, via_accept, with_route):
+    from clastic import Application, render_basic
+    ep = _doc_ep(doc)
+    c = _TABULAR[ctx]
+    ep2 = lambda: c
+    ep2.__doc__ = ep.__doc__
+    app = Application([('/', ep2, render_basic)])
+    cl = app.get_local_client()
+    resp = cl.get('/', headers={'Accept': 'text/html'}) if via_accept else cl.get('/?format=html')
+    return not (resp.status_code == 200 and resp.mimetype == 'text/html' and '<table' in resp.get_data(True))
